@@ -83,6 +83,12 @@ instance toArgArr : ToArg P P := ⟨Arg.arr⟩
 instance toArgImg : ToArg (Img P) P := ⟨Arg.img⟩
 instance toArgSelf : ToArg (Arg P) P := ⟨id⟩
 
+/-- `x.mask`: the mask of an image object (only a MaskedImage has one); of a mask (a BooleanImage) its own data -/
+class HasMask (α : Type) where
+  maskOf : α → Except Err Mask
+instance hasMaskImg : HasMask (Img P) := ⟨Img.maskE⟩
+instance hasMaskSelf : HasMask Mask := ⟨.ok⟩
+
 /-- calling an array-level function -/
 def callArr {α β : Type} [AsPx α P] (f : P → Except Err β) (a : α) : Except Err β := (AsPx.toP a).bind f
 /-- calling an image-level function -/
